@@ -330,3 +330,9 @@ for fn in ("reload", "reload_now"):
 add("rd_init_dfcc", ["C18"], ["tu/reader_init_dfcc.c"], "h_reader_init_dfcc", mode="dfcc", enforce="mtbl_reader_init/mtbl_reader_init__spec",
     replace=["open/open__cap", "close/close__cap", "mtbl_reader_init_fd/mtbl_reader_init_fd__cap"], unwind=8, timeout=300, strength="U", functions=["mtbl_reader_init"],
     assumptions=["open / close by their POSIX contracts with a descriptor counter; mtbl_reader_init_fd replaced by 'returns NULL or a reader, does not close the caller's descriptor' (its memory safety: c19_reader_open; its mapping balance on refusal paths is not decided)"])
+add("so_iter_dfcc", ["C06", "C18"], ["tu/sorter_iter_dfcc.c"], "h_sorter_iter_dfcc", mode="dfcc", enforce="mtbl_sorter_iter/mtbl_sorter_iter__spec",
+    replace=["my_calloc/my_calloc__cap", "free/free__cap", "_mtbl_sorter_flush/_mtbl_sorter_flush__cap", "mtbl_merger_options_init/mtbl_merger_options_init__cap", "mtbl_merger_options_set_merge_func/mtbl_merger_options_set_merge_func__cap",
+             "mtbl_merger_options_destroy/mtbl_merger_options_destroy__cap", "mtbl_merger_init/mtbl_merger_init__cap", "result_handler_destroy/result_handler_destroy__cap", "mtbl_reader_source/mtbl_reader_source__cap",
+             "mtbl_merger_add_source/mtbl_merger_add_source__cap", "mtbl_merger_source/mtbl_merger_source__cap", "mtbl_source_iter/mtbl_source_iter__cap", "mtbl_iter_init/mtbl_iter_init__cap"],
+    loops="loops/so_iter.json", unwind=24, timeout=900, slice=1, strength="U", functions=["mtbl_sorter_iter"],
+    assumptions=["merger, merger options, reader source, result handler and iterator constructors replaced by capture contracts; up to 2^28 chunk readers", "the options object leaked when the final flush fails is the open observation of DESIGN.md section 5 (not a listed clause)"])
